@@ -66,6 +66,7 @@ impl FramedReader {
         requires old(self).wf(),
         ensures final(self).wf(), final(self).parser.same_kind(&old(self).parser), final(io).sent == old(io).sent,
             final(self).logical() + final(io).pending =~= old(self).logical() + old(io).pending,
+            final(io).read_errs == old(io).read_errs,     // a failed read ends next_frame: while it is still running none has failed
     { unimplemented!() }
 
 //@fn rodbus/src/common/frame.rs | FramedReader::tcp | tags=C05
@@ -92,7 +93,8 @@ impl FramedReader {
 //@|        r matches Err(RequestError::Io(k)) ==> final(self).logical() + final(io).pending =~= old(self).logical() + old(io).pending,
 //@|        !(r matches Err(RequestError::Internal(_))),
 //@|        r is Err ==> (r->Err_0 is BadFrame || r->Err_0 is Io),
-//@loop 0|            invariant self.wf(), self.parser.same_kind(&old(self).parser), io.sent == old(io).sent,
+//@|        r is Ok ==> final(io).read_errs == old(io).read_errs,        // a frame is delivered only while no read of the layer has failed
+//@loop 0|            invariant self.wf(), self.parser.same_kind(&old(self).parser), io.sent == old(io).sent, io.read_errs == old(io).read_errs,
 //@loop 0|                self.logical() + io.pending =~= old(self).logical() + old(io).pending,
 //@loopstart 0| broadcast use crate::spec::lemmas::lemma_add_assoc; self.parser.lemma_prefix_stable(self.logical(), io.pending);
 }
